@@ -677,6 +677,7 @@ class IntNStringReceiver(protocol.Protocol, _PauseableMixin):
     MAX_LENGTH = 99999
     _unprocessed = b""
     _compatibilityOffset = 0
+    _busyReceiving = False
 
     # Backwards compatibility support for applications which directly touch the
     # "internal" parse buffer.
@@ -707,6 +708,15 @@ class IntNStringReceiver(protocol.Protocol, _PauseableMixin):
         """
         Convert int prefixed strings into calls to stringReceived.
         """
+        if self._busyReceiving:
+            # A re-entrant call made from within stringReceived (for example
+            # resumeProducing(), which calls dataReceived(b"")): just buffer
+            # the data.  The call that is already parsing carries on with it
+            # when stringReceived returns; parsing the buffer here would
+            # deliver again the strings that call has already delivered.
+            self._unprocessed += data
+            return
+
         # Try to minimize string copying (via slices) by keeping one buffer
         # containing all the data we have so far and a separate offset into that
         # buffer.
@@ -716,41 +726,50 @@ class IntNStringReceiver(protocol.Protocol, _PauseableMixin):
         fmt = self.structFormat
         self._unprocessed = alldata
 
-        while len(alldata) >= (currentOffset + prefixLength) and not self.paused:
-            messageStart = currentOffset + prefixLength
-            (length,) = unpack(fmt, alldata[currentOffset:messageStart])
-            if length > self.MAX_LENGTH:
-                self._unprocessed = alldata
+        self._busyReceiving = True
+        try:
+            while (
+                len(alldata) >= (currentOffset + prefixLength) and not self.paused
+            ):
+                messageStart = currentOffset + prefixLength
+                (length,) = unpack(fmt, alldata[currentOffset:messageStart])
+                if length > self.MAX_LENGTH:
+                    self._unprocessed = alldata
+                    self._compatibilityOffset = currentOffset
+                    self.lengthLimitExceeded(length)
+                    return
+                messageEnd = messageStart + length
+                if len(alldata) < messageEnd:
+                    break
+
+                # Here we have to slice the working buffer so we can send just the
+                # netstring into the stringReceived callback.
+                packet = alldata[messageStart:messageEnd]
+                currentOffset = messageEnd
                 self._compatibilityOffset = currentOffset
-                self.lengthLimitExceeded(length)
-                return
-            messageEnd = messageStart + length
-            if len(alldata) < messageEnd:
-                break
+                self.stringReceived(packet)
 
-            # Here we have to slice the working buffer so we can send just the
-            # netstring into the stringReceived callback.
-            packet = alldata[messageStart:messageEnd]
-            currentOffset = messageEnd
-            self._compatibilityOffset = currentOffset
-            self.stringReceived(packet)
+                # Pick up whatever re-entrant dataReceived calls appended.
+                alldata = self._unprocessed
 
-            # Check to see if the backwards compat "recvd" attribute got written
-            # to by application code.  If so, drop the current data buffer and
-            # switch to the new buffer given by that attribute's value.
-            if "recvd" in self.__dict__:
-                alldata = self.__dict__.pop("recvd")
-                self._unprocessed = alldata
-                self._compatibilityOffset = currentOffset = 0
-                if alldata:
-                    continue
-                return
+                # Check to see if the backwards compat "recvd" attribute got written
+                # to by application code.  If so, drop the current data buffer and
+                # switch to the new buffer given by that attribute's value.
+                if "recvd" in self.__dict__:
+                    alldata = self.__dict__.pop("recvd")
+                    self._unprocessed = alldata
+                    self._compatibilityOffset = currentOffset = 0
+                    if alldata:
+                        continue
+                    return
 
-        # Slice off all the data that has been processed, avoiding holding onto
-        # memory to store it, and update the compatibility attributes to reflect
-        # that change.
-        self._unprocessed = alldata[currentOffset:]
-        self._compatibilityOffset = 0
+            # Slice off all the data that has been processed, avoiding holding onto
+            # memory to store it, and update the compatibility attributes to reflect
+            # that change.
+            self._unprocessed = alldata[currentOffset:]
+            self._compatibilityOffset = 0
+        finally:
+            self._busyReceiving = False
 
     def sendString(self, string):
         """
